@@ -27,6 +27,19 @@ class _Cexptrk_Potential_Function(object):
         # names the expression language keeps for itself: constants (pi, epsilon, inf) and reserved words (min, if, ...)
         raise Potential_Form_Exception("potential-form '{}' cannot have a parameter named '{}': {}".format(
           self._potential_form_tuple.signature.label, pn, e.args[0] if e.args else e))
+    # Symbols are case-insensitive and a few names (True, FALSE, Null...) slip through the checks above:
+    # a parameter must read back as the value it was given, not as a literal of the expression language.
+    probe = 12345.678
+    for pn in parameter_names:
+      local_symbol_table.variables[pn] = probe
+      try:
+        ok = cexprtk.Expression(pn, local_symbol_table)() == probe
+      except cexprtk.ParseException:
+        ok = False
+      local_symbol_table.variables[pn] = 1.0
+      if not ok:
+        raise Potential_Form_Exception("potential-form '{}' cannot have a parameter named '{}': the name has a meaning of its own in formulas".format(
+          self._potential_form_tuple.signature.label, pn))
     return local_symbol_table
 
   def register_function(self, func):
